@@ -1285,6 +1285,16 @@ pub fn entry_counts_from_group<'a, 'b: 'a>(
   entry_counts
 }
 
+/// Whether an occurrence indicator allows its entry to be absent: `?`, `*` and
+/// `n*m` with `n` zero or omitted
+pub(crate) fn occurrence_allows_absence(occur: &Occur) -> bool {
+  match occur {
+    Occur::Optional { .. } | Occur::ZeroOrMore { .. } => true,
+    Occur::Exact { lower, .. } => lower.map_or(true, |lower| lower == 0),
+    Occur::OneOrMore { .. } => false,
+  }
+}
+
 /// Validate the number of entries given an array of possible valid entry counts
 pub fn validate_entry_count(valid_entry_counts: &[EntryCount], num_entries: usize) -> bool {
   valid_entry_counts.iter().any(|ec| {
